@@ -620,8 +620,14 @@ func (r *c34Run) liveServer(v *c34Vec, unit, limit, salt int) {
 	core, stream := c34NewStream(v, unit, salt)
 	declared := c34Declared(v, unit)
 	s := &Server{
-		Handler: func(ctx *RequestCtx) { ctx.SetBodyStream(stream, declared) },
-		Logger:  c34NullLogger{},
+		Handler: func(ctx *RequestCtx) {
+			if string(ctx.Path()) == "/second" {
+				ctx.SetBodyString("second") // the recycled ctx serves the next request of the connection
+				return
+			}
+			ctx.SetBodyStream(stream, declared)
+		},
+		Logger: c34NullLogger{},
 	}
 	pc := fasthttputil.NewPipeConns()
 	cli, srvSide := pc.Conn1(), pc.Conn2()
@@ -648,19 +654,43 @@ func (r *c34Run) liveServer(v *c34Vec, unit, limit, salt int) {
 			break
 		}
 	}
+	e := v.Expect
+	if !failed && limit < 0 {
+		// the next request on the same connection is served by the recycled ctx
+		if _, err := cli.Write([]byte("GET /second HTTP/1.1\r\nHost: h\r\n\r\n")); err == nil {
+			var w2 []byte
+			closed := false
+			for {
+				n, err := cli.Read(buf)
+				w2 = append(w2, buf[:n]...)
+				if err != nil {
+					closed = true
+					break
+				}
+				if _, complete, _, perr := c34PeerBody("resp", w2); perr == nil && complete {
+					break
+				}
+			}
+			if b, complete, _, _ := c34PeerBody("resp", w2); !closed && (!complete || string(b) != "second") {
+				r.viol(v, bind, "next-request-on-connection", unit, limit, "the request after the streamed response was answered with %s", c34Clip(w2))
+			}
+		}
+	}
 	cli.Close()
 	select {
 	case <-done:
-	case <-time.After(60 * time.Second):
+	case <-time.After(120 * time.Second):
 		vfInfra("c34 live server: ServeConn did not return")
 		return
 	}
 	r.count(v, bind)
-	e := v.Expect
+	// a close error of the stream surfaces after the body was written: the response may or may
+	// not have been flushed before the server gives the connection up
+	closeErrOnly := e.CerrW && !e.Werr
 	if e.Werr && !failed {
 		r.viol(v, bind, "connection-kept-after-failed-write", unit, limit, "the peer received a complete response although the write must fail")
 	}
-	if !e.Werr && failed {
+	if !e.Werr && failed && !closeErrOnly {
 		r.viol(v, bind, "unexpected-close", unit, limit, "the server closed the connection before a complete response; wire=%s", c34Clip(wire))
 	}
 	r.checkCounts(v, bind, "at-end", unit, limit, core, e.CloseFinal, e.CweFinal)
@@ -672,46 +702,83 @@ func (r *c34Run) liveServer(v *c34Vec, unit, limit, salt int) {
 func (r *c34Run) liveClient(v *c34Vec, unit, limit, salt int) {
 	const bind = "HostClient"
 	core, stream := c34NewStream(v, unit, salt)
-	var got atomic.Value
-	s := &Server{
-		Handler: func(ctx *RequestCtx) {
-			got.Store(append([]byte(nil), ctx.PostBody()...))
-			ctx.SetBodyString("ok")
-		},
-		Logger:             c34NullLogger{},
-		MaxRequestBodySize: 64 << 20,
+	viaClient := v.Sc.viaClient()
+	type c34Peer struct {
+		body     []byte
+		got      bool
+		answered bool
 	}
+	var peersMu sync.Mutex
+	var peers []*c34Peer
 	var srvDone sync.WaitGroup
-	var connsMu sync.Mutex
 	var conns []net.Conn // closed by the harness at the end: a panic inside Do leaks its connection
 	hc := &HostClient{
 		Addr: "example.com:80",
 		Dial: func(addr string) (net.Conn, error) {
 			pc := fasthttputil.NewPipeConns()
+			peer := &c34Peer{}
+			peersMu.Lock()
+			peers = append(peers, peer)
+			idx := len(peers)
+			conns = append(conns, pc.Conn1())
+			peersMu.Unlock()
+			// the first connection dies after the request has been received, before any response byte
+			die := v.Sc.ConnFault == "after-write" && idx == 1
+			s := &Server{
+				Handler: func(ctx *RequestCtx) {
+					peersMu.Lock()
+					peer.body, peer.got = append([]byte(nil), ctx.Request.Body()...), true
+					peer.answered = !die
+					peersMu.Unlock()
+					if die {
+						ctx.Conn().Close()
+						return
+					}
+					ctx.SetBodyString("ok")
+				},
+				Logger:             c34NullLogger{},
+				MaxRequestBodySize: 64 << 20,
+			}
 			srvDone.Add(1)
 			go func() { defer srvDone.Done(); s.ServeConn(pc.Conn2()) }() //nolint:errcheck
-			connsMu.Lock()
-			conns = append(conns, pc.Conn1())
-			connsMu.Unlock()
 			return &c34FaultConn{Conn: pc.Conn1(), limit: limit}, nil
 		},
-		ReadTimeout:  60 * time.Second,
-		WriteTimeout: 60 * time.Second,
+		ReadTimeout:  120 * time.Second,
+		WriteTimeout: 120 * time.Second,
 	}
 	req := AcquireRequest()
 	req.SetRequestURI("http://example.com/p")
 	req.Header.SetMethod("POST")
+	how := "POST"
+	if v.Sc.RetryOK {
+		// retry-eligible: an idempotent method, or a callback that allows the retry
+		switch salt % 3 {
+		case 0:
+			req.Header.SetMethod("PUT")
+			how = "PUT"
+		case 1:
+			hc.RetryIf = func(*Request) bool { return true }
+			how = "POST+RetryIf"
+		default:
+			hc.RetryIfErr = func(*Request, int, error) (bool, bool) { return false, true }
+			how = "POST+RetryIfErr"
+		}
+	}
 	req.SetBodyStream(stream, c34Declared(v, unit))
 	resp := AcquireResponse()
 	err, panicked := c34Call(func() error { return hc.Do(req, resp) })
 	failed := err != nil || panicked
 	r.count(v, bind)
 	e := v.Expect
-	if e.Werr && !failed {
-		r.viol(v, bind, "error-not-reported", unit, limit, "Do succeeded although the specification requires an error")
+	mustFail := e.mustFail()
+	if viaClient {
+		mustFail = !e.DoOK
 	}
-	if !e.Werr && failed {
-		r.viol(v, bind, "unexpected-error", unit, limit, "Do failed: %v (panicked=%v)", err, panicked)
+	if mustFail && !failed {
+		r.viol(v, bind, "error-not-reported", unit, limit, "Do (%s) succeeded although the specification requires an error", how)
+	}
+	if !mustFail && failed {
+		r.viol(v, bind, "unexpected-error", unit, limit, "Do (%s) failed: %v (panicked=%v)", how, err, panicked)
 	}
 	if panicked && !e.Panicked {
 		r.viol(v, bind, "unexpected-panic", unit, limit, "Do panicked")
@@ -719,26 +786,45 @@ func (r *c34Run) liveClient(v *c34Vec, unit, limit, salt int) {
 	r.checkCounts(v, bind, "after-write", unit, limit, core, e.CloseAfterWrite, 0)
 	o := &c34Owner{req: req}
 	o.post(v.Sc.Post, salt)
+	r.checkCounts(v, bind, "after-post", unit, limit, core, e.CloseFinal, 0)
+	o.finish(v.Sc.Post)
 	r.checkCounts(v, bind, "at-end", unit, limit, core, e.CloseFinal, 0)
-	if !failed {
-		b, _ := got.Load().([]byte)
-		if !bytes.Equal(b, core.content) {
-			r.viol(v, bind, "peer-bytes-differ", unit, limit, "the server read %s, the stream produced %s", c34Clip(b), c34Clip(core.content))
-		}
-	}
 	ReleaseResponse(resp)
 	hc.CloseIdleConnections()
-	connsMu.Lock()
+	peersMu.Lock()
 	for _, c := range conns {
 		c.Close()
 	}
-	connsMu.Unlock()
+	peersMu.Unlock()
 	wait := make(chan struct{})
 	go func() { srvDone.Wait(); close(wait) }()
 	select {
 	case <-wait:
-	case <-time.After(60 * time.Second):
+	case <-time.After(120 * time.Second):
 		vfInfra("c34 live client: server side did not finish")
+		return
+	}
+	// the peers' view: a request whose body is a stream is written to one connection only, and
+	// whenever Do reported success the peer that answered received exactly the stream's bytes
+	peersMu.Lock()
+	defer peersMu.Unlock()
+	if len(peers) > 1 {
+		r.viol(v, bind, "request-with-body-stream-resent", unit, limit, "Do (%s) used %d connections for a request whose body stream can be read only once", how, len(peers))
+	}
+	if !failed {
+		var ans *c34Peer
+		for _, p := range peers {
+			if p.answered {
+				ans = p
+			}
+		}
+		if ans == nil || !bytes.Equal(ans.body, core.content) {
+			var b []byte
+			if ans != nil {
+				b = ans.body
+			}
+			r.viol(v, bind, "peer-bytes-differ", unit, limit, "Do (%s) reported success, the peer that answered received %s, the stream produced %s", how, c34Clip(b), c34Clip(core.content))
+		}
 	}
 }
 
@@ -1117,8 +1203,8 @@ func (r *c34Run) compressed(v *c34Vec, unit, salt int) {
 	if res.Closes != v.Expect.CloseFinal {
 		r.viol(v, bind, "close-count-at-end", unit, -1, "Close called %d time(s) on the original stream, specification %d", res.Closes, v.Expect.CloseFinal)
 	}
-	if v.Sc.PanicAt != 0 {
-		return
+	if v.Sc.PanicAt != 0 || v.Sc.CloseErr {
+		return // the write fails (panic / close error): only the close count is judged
 	}
 	content := c34Bytes(v.Sc.L*unit, salt)
 	br := bufio.NewReader(bytes.NewReader(res.Wire))
@@ -1432,6 +1518,10 @@ func TestVerifC34BodyStream(t *testing.T) {
 				}
 				if v.Sc.Kind != "write" {
 					run.replaceOrReadAll(v, unit, salt)
+					continue
+				}
+				if v.Sc.viaClient() {
+					run.liveClient(v, unit, -1, salt)
 					continue
 				}
 				bufSize := []int{16, 4096}[rng.Intn(2)]
